@@ -174,6 +174,9 @@ class Runner(object):
             shutil.rmtree(d)
         os.mkdir(d)
         for name, cid in dirs[fid]:
+            if cid not in files:
+                os.mkdir(os.path.join(d, name.decode("utf8")))       # an entry that is a directory (the model: a file id without content)
+                continue
             with open(os.path.join(d, name.decode("utf8")), "wb") as f:
                 f.write(files[cid])
         # os.listdir order is whatever the filesystem gives; the model is told that order
